@@ -49,14 +49,21 @@ FRAGMENT_TAGS = {'or_test', 'and_test', 'not_test', 'comparison', 'comp_op', 'co
 
 
 def run_translators(ctx: Ctx) -> tuple[bool, str]:
-	from translate import gen_decl_matchers, gen_grammar_ladder, gen_grammar_parents, gen_resolver_table
+	from translate import gen_decl_matchers, gen_grammar_ladder, gen_grammar_parents, gen_match_features, gen_resolver_table
 	msgs = []
 	ok = True
-	for mod in (gen_grammar_ladder, gen_resolver_table, gen_decl_matchers, gen_grammar_parents):
+	for mod in (gen_grammar_ladder, gen_resolver_table, gen_decl_matchers, gen_grammar_parents, gen_match_features):
 		try:
 			for rec in mod.generate():
 				if 'lexer' in rec:
 					LEXER_FACTS.update(rec.pop('lexer'))
+				if 'words' in rec:
+					# the words the code's match_feature methods compare node texts with must be the ones Python gives a meaning to
+					# (the oracle's own list, never taken from the code): another word = a classification the generator does not exercise
+					words = rec.pop('words')
+					if words != STEER_WORDS:
+						ok = False
+						msgs.append(f'{mod.__name__}: the code compares node texts with {words}, the oracle and the generator know {STEER_WORDS}')
 				ctx.generated_tables.append(rec)
 		except Exception as e:  # noqa: BLE001 - an unrecognised input shape breaks the tie (DESIGN §2.3)
 			ok = False
@@ -505,6 +512,118 @@ def stream_pygroup(ctx: Ctx) -> Stream:
 #   * not distinguishable in CPython's ast (tranp's tree is finer, nothing to compare against): `else:` holding exactly one `if`
 #     vs `elif`; `a[(1, 2)]` vs `a[1, 2]` (generated, compared modulo the identification); redundant parentheses (generated,
 #     `Group` is transparent in the canon); the order between positional and keyword arguments of a call.
+# The words tranp's classification goes by (match_feature tests and DeclableMatcher compare node texts with them). Python gives a
+# meaning to exactly these spellings; every other identifier — longer, shorter, differently cased, or a dotted path that merely
+# has the word as one of its parts — is an ordinary name. The generator places such near misses wherever the word itself steers
+# the classification (CONVENTIONS rule 16: names that are prefixes of each other).
+STEER_DECORATORS = ['classmethod', 'staticmethod']
+STEER_DEF_NAME = '__init__'
+STEER_FIRST_PARAM = 'self'
+STEER_BASE = 'Enum'
+STEER_THIS = 'self'
+STEER_CLS = 'cls'
+STEER_SUPER = 'super'
+STEER_LIST = 'list'
+STEER_DICT = 'dict'
+# role -> word, as translate/gen_match_features.py names the words it reads off the match_feature methods (compared in run_translators)
+STEER_WORDS = {'decorator': STEER_DECORATORS[0], 'def-name': STEER_DEF_NAME, 'base': STEER_BASE, 'class-reference': STEER_CLS, 'this-reference': STEER_THIS,
+	'list-type': STEER_LIST, 'dict-type': STEER_DICT, 'super-call': STEER_SUPER}
+
+
+def near_misses(word: str, dotted: bool = False) -> list[str]:
+	"""identifiers that contain / extend / shorten / re-case `word` without being it (deterministic, duplicates removed, keywords dropped);
+	`dotted`: also dotted paths having the word, or a near miss of it, as one part"""
+	import keyword
+	core = word.strip('_') or word
+	out = [f'not_a_{word}', f'{word}s', f'{word}_', f'_{word}', f'x{word}', f'{word}2', f'my{word}er', word[:-1], word[1:], core[:max(1, len(core) // 2)], core[len(core) // 2:],
+		word.upper(), word.lower(), word.capitalize(), word.swapcase(), core]
+	if dotted:
+		out += [f'pkg.{word}', f'{word}.sub', f'hooks.{word}s.register', f'pkg.{word}.register', f'{word}.{word}', f'{word}_count']
+	seen: list[str] = []
+	for w in out:
+		parts = w.split('.')
+		if w == word or w in seen or not all(p.isidentifier() and not keyword.iskeyword(p) and p not in LEXER_FACTS['reserved'] for p in parts):
+			continue
+		seen.append(w)
+	return seen
+
+
+def near_miss_programs() -> list[tuple[str, str]]:
+	"""(name, source): small fixed programs, checked on every run, that put every near miss of every steering word at every place where
+	the word itself would change the classification — next to the word itself at the same places (so that both directions of a
+	wrong comparison show: a near miss taken for the word, and the word no longer recognised among / beside other names)"""
+	progs: list[tuple[str, str]] = []
+
+	def emit(name: str, blocks: list[list[str]], head: list[str] | None = None, max_lines: int = 48) -> None:
+		"""pack self-contained groups of lines into programs of at most ~max_lines lines (small enough for every stream's size limit)"""
+		cur: list[str] = list(head or [])
+		k = 0
+		for b in blocks:
+			if len(cur) > len(head or []) and len(cur) + len(b) > max_lines:
+				progs.append((f'{name}-{k}', '\n'.join(cur) + '\n'))
+				k += 1
+				cur = list(head or [])
+			cur += b
+		if len(cur) > len(head or []):
+			progs.append((f'{name}-{k}', '\n'.join(cur) + '\n'))
+
+	# decorators: on a module-level def, on methods (any position of the decorator list, with and without arguments), on a closure
+	for word in STEER_DECORATORS:
+		blocks = []
+		for k, v in enumerate(near_misses(word, dotted=True)):
+			call = '(3)' if k % 3 == 1 else ''
+			blocks.append([f'@{v}{call}', f'def top{k}(p: int) -> int:', f'\t@{v}{call}', f'\tdef inner{k}(q: int) -> int:', '\t\treturn q', f'\treturn inner{k}(p)',
+				f'class D{k}(Base):', f'\t@{v}{call}', f'\tdef plain{k}(self, p: int) -> int:', '\t\treturn p',
+				'\t@deco', f'\t@{v}{call}', f'\tdef {STEER_DEF_NAME}(self) -> None:', '\t\tpass'])
+		emit(f'near-miss-decorator-{word}', blocks)
+	# the word itself among other decorators, for comparison
+	emit('decorator-positions', [[f'class P{k}:', *[f'\t@{d}' for d in decos], f"\tdef f{k}({'cls, ' if 'classmethod' in decos else ''}p: int) -> int:", '\t\treturn p']
+		for k, decos in enumerate([['classmethod'], ['deco', 'classmethod'], ['classmethod', 'pkg.wrap(1)'], ['a.b', 'classmethod', 'override'], ['staticmethod'], ['deco', 'staticmethod']])])
+	# class bases: Enum at every position of 1..3 bases, beside plain / dotted / generic bases; near misses alone and beside others; nested classes
+	others = ['str', 'Mixin', 'mod.Base', 'Box[int]']
+	blocks = []
+	k = 0
+	for n in (1, 2, 3):
+		for pos in range(n):
+			bases = [others[(pos + j) % len(others)] for j in range(n)]
+			bases[pos] = STEER_BASE
+			blocks.append([f'class E{k}({", ".join(bases)}):', '\tA = 1', '\tB = 2'])
+			k += 1
+	for v in near_misses(STEER_BASE, dotted=True) + [f'Box[{STEER_BASE}]']:
+		blocks.append([f'class E{k}({v}):', '\tA = 1', f'class E{k}b(str, {v}):', '\tA = 1', f'class E{k}c({v}, Mixin):', '\tA = 1'])
+		k += 1
+	blocks.append(['class Holder:', f'\tclass Inner(int, {STEER_BASE}):', '\t\tA = 1', '\tclass Other(int):', '\t\tA = 1',
+		'def make() -> None:', f'\tclass Local(Mixin, {STEER_BASE}):', '\t\tA = 1', '\tclass Plain(Mixin):', '\t\tA = 1'])
+	emit('class-bases', blocks)
+	# def names: near misses of __init__ as methods, the word itself as constructor, both at module level and as closures
+	emit('near-miss-def-name-method', [[f'\tdef {v}(self, p: int) -> None:', '\t\tself.p = p'] for v in near_misses(STEER_DEF_NAME)],
+		head=['class N(Base):', f'\tdef {STEER_DEF_NAME}(self, p: int) -> None:', '\t\tself.p = p'])
+	emit('near-miss-def-name-function', [[f'def {v}(p: int) -> None:', f'\tdef {v}(q: int) -> None:', '\t\tpass'] for v in [STEER_DEF_NAME, *near_misses(STEER_DEF_NAME)]])
+	# first parameters: near misses of self on class functions (each also is the known divergence classify:method-without-self-name), on closures and module-level defs
+	emit('near-miss-first-param', [[f'\tdef m{k}({v}, p: int) -> int:', f'\t\tdef c{k}({v}: int) -> int:', f'\t\t\treturn {v}', f'\t\treturn c{k}(p)']
+		for k, v in enumerate(near_misses(STEER_FIRST_PARAM))], head=['class S(Base):', f'\tdef m({STEER_FIRST_PARAM}, p: int) -> int:', '\t\treturn p'])
+	emit('near-miss-first-param-function', [[f'def g{k}({v}: int) -> int:', f'\treturn {v}'] for k, v in enumerate(near_misses(STEER_FIRST_PARAM))])
+	# references: self / cls and their near misses as operands, receivers, arguments and attribute-assignment receivers, in a method, a class method and at module level
+	for word in (STEER_THIS, STEER_CLS):
+		body = [[f't{k} = {v}', f'u{k} = {v}.attr + other.{v}', f'w{k} = f({v}, key={v})[{v}]', f'{v}.a.b = [{v}, {word}]'] for k, v in enumerate([word, *near_misses(word)])]
+		emit(f'near-miss-reference-{word}-method', [['\t\t' + ln for ln in b] for b in body], head=['class R(Base):', f'\tdef m({STEER_THIS}, p: int) -> None:'])
+		emit(f'near-miss-reference-{word}-classmethod', [['\t\t' + ln for ln in b] for b in body], head=['class R(Base):', '\t@classmethod', f'\tdef c({STEER_CLS}, p: int) -> None:'])
+		emit(f'near-miss-reference-{word}-module', body)
+	# generic types: list / dict and their near misses (plain and dotted) with one and two arguments, as annotations, parameters, return types and bases
+	blocks = []
+	k = 0
+	for word in (STEER_LIST, STEER_DICT):
+		for v in [word, *near_misses(word, dotted=True)]:
+			blocks.append([f'a{k}: {v}[int] = x', f'b{k}: {v}[str, {v}[int]] = x', f'def f{k}(p: {v}[int], q: Box[{v}[str, int]] = 1) -> {v}[str, int]:', '\tpass', f'class G{k}({v}[int], Base):', '\tpass'])
+			k += 1
+	blocks.append(['c1: Callable[[int], str] = x', 'c2: Callable[..., str] = x', 'c3: list[int] | None = x', 'c4: Handler[[list[int], dict[str, int]], list[int]] = x', 'c5: Pair[int, str] = x'])
+	emit('near-miss-generic-type', blocks)
+	# super: the word and its near misses as callee, with and without arguments, bare and as receiver of a method call
+	emit('near-miss-super', [[f'\t\t{v}().{STEER_DEF_NAME}(p)', f'\t\tt{k} = {v}(U, self).make(p, key={v}())', f'\t\tu{k} = {v}(p)'] for k, v in enumerate([STEER_SUPER, *near_misses(STEER_SUPER, dotted=True)])],
+		head=['class U(Base):', f'\tdef {STEER_DEF_NAME}(self, p: int) -> None:'])
+	return progs
+
+
 class Gen:
 	"""Random programs of the common language, as source text. Structure is random; layout (tabs/spaces, blank lines, redundant
 	parentheses, line breaks inside brackets, comment lines) is random too. `conventional=True` keeps to the coding
@@ -824,6 +943,9 @@ class Gen:
 		out = []
 		for _ in range(rng.choice([0, 0, 0, 1, 2])):
 			dn = rng.choice(['deco', 'pkg.wrap', 'override', 'abstractmethod'])
+			if rng.random() < 0.3:
+				# a name that merely contains / extends / qualifies one of the words Python gives a meaning to
+				dn = rng.choice(near_misses(rng.choice(STEER_DECORATORS), dotted=True))
 			out.append(self.line(ind, f'@{dn}' + (f'({self.items(1)})' if rng.random() < 0.3 else '')))
 		if first:
 			# `@classmethod` / `@staticmethod` at any position of the decorator list
@@ -878,7 +1000,7 @@ class Gen:
 				deco_first = 'staticmethod' if rng.random() < 0.6 else None
 			r2 = rng.random() if force is None else 1.0
 			if r2 < 0.05 and deco_first is None and name != '__init__':
-				first = rng.choice(['this', 'me', None])  # known divergence classify:method-without-self-name
+				first = rng.choice(['this', 'me', None, *near_misses(STEER_FIRST_PARAM)])  # known divergence classify:method-without-self-name
 			elif r2 < 0.07 and deco_first == 'staticmethod':
 				first = 'self'  # known divergence classify:staticmethod-taking-self
 		else:
@@ -892,6 +1014,8 @@ class Gen:
 				name = '__init__'
 			if rng.random() < 0.02:
 				deco_first, first = 'classmethod', 'cls'  # known divergence classify:classmethod-outside-class
+		if name != '__init__' and rng.random() < 0.05:
+			name = rng.choice(near_misses(STEER_DEF_NAME))  # an ordinary name, inside and outside classes
 		out += self.decorators(ind, deco_first)
 		ret = 'None' if name == '__init__' else self.type_expr()
 		out.append(self.line(ind, f'def {name}({self.params(first)}) -> {ret}:'))
@@ -935,7 +1059,11 @@ class Gen:
 		rng = self.rng
 		out = self.decorators(ind, None)
 		name = self.fresh('C')
-		bases = [rng.choice(['A', 'B', 'mod.Base', 'Box[int]', 'Enum', 'object']) for _ in range(rng.choice([0, 0, 1, 1, 2]))]
+		bases = [rng.choice(['A', 'B', 'mod.Base', 'Box[int]', 'Enum', 'object', 'str']) for _ in range(rng.choice([0, 0, 1, 1, 2, 3]))]
+		if bases and rng.random() < 0.25:
+			bases[rng.randrange(len(bases))] = 'Enum'  # at any position, beside any other bases
+		if bases and rng.random() < 0.15:
+			bases[rng.randrange(len(bases))] = rng.choice(near_misses(STEER_BASE, dotted=True) + ['Box[Enum]'])
 		if rng.random() < 0.05:
 			bases.append(f'metaclass={rng.choice(["Meta", "abc.ABCMeta"])}')  # known divergence canon:class-metaclass-dropped
 		out.append(self.line(ind, f'class {name}' + (f"({', '.join(bases)})" if bases or rng.random() < 0.2 else '') + ':'))
@@ -1008,6 +1136,7 @@ def stream_classify(ctx: Ctx) -> Stream:
 	for i in range(n):
 		sources.append((Gen(rng, 2 + i % 4).module(), 'generated'))
 	sources += [(s, 'special') for s in SPECIAL_PROGRAMS]
+	sources += [(s, 'special-near-miss') for _, s in near_miss_programs()]
 	kw_items = keyword_names_program(app)
 	for k in range(0, len(kw_items), 40):
 		sources.append(('\n'.join(kw_items[k:k + 40]) + '\n', 'special-keywords'))
@@ -1382,7 +1511,10 @@ class PyCanon:
 				raise CanonError('class keywords')  # only `metaclass=` is in grammar.lark
 			if s.keywords:
 				self.mark('canon:class-metaclass-dropped', s)
-			return sx('Class', s.name, [self.decorator(d) for d in s.decorator_list], [self.type(b) for b in s.bases], self.body(s.body, 'class', direct=True, owner=s))
+			# the kind of the class: an enumeration is a class that lists the bare name `Enum` among its bases, at any position and
+			# next to any other bases (`class E(str, Enum)`); a longer or dotted name that merely contains the word is another class
+			ckind = 'Enum' if any(isinstance(b, ast.Name) and b.id == 'Enum' for b in s.bases) else 'Class'
+			return sx('Class', ckind, s.name, [self.decorator(d) for d in s.decorator_list], [self.type(b) for b in s.bases], self.body(s.body, 'class', direct=True, owner=s))
 		if isinstance(s, ast.ImportFrom):
 			return sx('Import', s.module, [sx('alias', a.name, a.asname) for a in s.names])
 		raise CanonError(f'stmt {type(s).__name__}')
@@ -1429,7 +1561,12 @@ class PyCanon:
 			return self.type(ast.parse(t.value, mode='eval').body)
 		if isinstance(t, ast.Subscript):
 			subs = t.slice.elts if isinstance(t.slice, ast.Tuple) else [t.slice]
-			return sx('TGeneric', self.type(t.value), [self.type(x) for x in subs])
+			# the kind of a generic type: `list[…]` / `dict[…]` by the bare name, a callable signature by its shape
+			# (`X[[params] | ..., R]`), anything else a user type
+			base = t.value.id if isinstance(t.value, ast.Name) else None
+			is_sig = len(subs) == 2 and (isinstance(subs[0], ast.List) or (isinstance(subs[0], ast.Constant) and subs[0].value is Ellipsis))
+			gkind = 'ListType' if base == STEER_LIST else 'DictType' if base == STEER_DICT else 'CallableType' if is_sig else 'CustomType'
+			return sx('TGeneric', gkind, self.type(t.value), [self.type(x) for x in subs])
 		if isinstance(t, ast.List):
 			return sx('TList', [self.type(x) for x in t.elts])
 		if isinstance(t, ast.BinOp) and isinstance(t.op, ast.BitOr):
@@ -1453,7 +1590,9 @@ class PyCanon:
 	def expr(self, n: ast.expr, store: bool = False) -> str:
 		e = self.expr
 		if isinstance(n, ast.Name):
-			role = 'decl' if store and n.id not in ('self', 'cls') else 'ref'
+			# `self` / `cls` are the instance / class reference wherever they stand (exactly these spellings); any other name is
+			# bound (store position) or used
+			role = 'this' if n.id == STEER_THIS else 'clsref' if n.id == STEER_CLS else 'decl' if store else 'ref'
 			return sx('Name', n.id, role)
 		if isinstance(n, ast.Constant):
 			if n.value is Ellipsis:
@@ -1462,7 +1601,9 @@ class PyCanon:
 		if isinstance(n, ast.Attribute):
 			return sx('Attr', e(n.value), n.attr)
 		if isinstance(n, ast.Call):
-			return sx('Call', e(n.func), self.args(n))
+			# `super(…)`: a call whose callee is the bare name super
+			ckind = 'Super' if isinstance(n.func, ast.Name) and n.func.id == STEER_SUPER else 'FuncCall'
+			return sx('Call', ckind, e(n.func), self.args(n))
 		if isinstance(n, ast.Subscript):
 			sl = n.slice
 			if isinstance(sl, ast.Slice):
@@ -1635,7 +1776,7 @@ class TranpCanon:
 		if c in ('Function', 'Method', 'ClassMethod', 'Constructor', 'Closure'):
 			return sx('Def', c, n.symbol.tokens, [self.decorator(d) for d in n.decorators], [self.param(p) for p in n.parameters], self.type(n.return_type), self.def_body(n))
 		if c in ('Class', 'Enum'):
-			return sx('Class', n.symbol.tokens, [self.decorator(d) for d in n.decorators], [self.type(b) for b in n.inherits], self.def_body(n))
+			return sx('Class', c, n.symbol.tokens, [self.decorator(d) for d in n.decorators], [self.type(b) for b in n.inherits], self.def_body(n))
 		if c == 'Import':
 			return sx('Import', n.import_path.tokens, [sx('alias', s.entity_symbol.tokens, self.opt(s.alias, lambda a: a.tokens)) for s in n.symbols])
 		# an expression statement
@@ -1672,10 +1813,10 @@ class TranpCanon:
 		if c == 'NullType':
 			return 'TNone'
 		if c in ('ListType', 'DictType', 'CustomType'):
-			return sx('TGeneric', self.type(t.type_name), [self.type(x) for x in t.sub_types])
+			return sx('TGeneric', c, self.type(t.type_name), [self.type(x) for x in t.sub_types])
 		if c == 'CallableType':
 			slices = t._children('typed_slices')
-			return sx('TGeneric', self.type(t.type_name), [self.type(x) for x in slices])
+			return sx('TGeneric', c, self.type(t.type_name), [self.type(x) for x in slices])
 		if c == 'TypeParameters':
 			return 'TEllipsis' if t.tag == 'typed_elipsis' else sx('TList', [self.type(x) for x in t.type_params])
 		if c == 'UnionType':
@@ -1696,7 +1837,7 @@ class TranpCanon:
 		if c in DECL_CLASSES:
 			return sx('Name', n.tokens, 'decl')
 		if c in REF_CLASSES:
-			return sx('Name', n.tokens, 'ref')
+			return sx('Name', n.tokens, {'ThisRef': 'this', 'ClassRef': 'clsref'}.get(c, 'ref'))
 		if c in ('Integer', 'Float', 'String', 'DocString'):
 			with warnings.catch_warnings():
 				warnings.simplefilter('ignore')
@@ -1719,7 +1860,7 @@ class TranpCanon:
 				return sx('AttrDecl', e(n._at(0)), n._at(1).tokens)
 			return sx('Attr', e(n.receiver), n.prop.tokens)
 		if c in ('FuncCall', 'Super'):
-			return sx('Call', e(n.calls), self.args(n.arguments))
+			return sx('Call', c, e(n.calls), self.args(n.arguments))
 		if c == 'Indexer':
 			if n.sliced:
 				lo, hi, st = n.keys
@@ -1783,7 +1924,7 @@ CANON_VOCAB = {'Module', 'Expr', 'Assign', 'AssignChain', 'AnnAssign', 'AugAssig
 	'While', 'For', 'Try', 'Handler', 'With', 'Item', 'Def', 'Class', 'Import', 'alias', 'Decorator', 'P', 'TName', 'TAttr', 'TNone', 'TEllipsis', 'TGeneric', 'TList',
 	'TUnion', 'pos', 'kw', 'star', 'dstar', 'Name', 'Const', 'Attr', 'Call', 'Index', 'Slice', 'Keys', 'UnaryOp', 'BinOp', 'BoolOp', 'Compare', 'cmp', 'IfExp',
 	'AttrDecl', 'Lambda', 'List', 'Tuple', 'Dict', 'pair', 'Starred', 'ListComp', 'DictComp', 'for', 'Yield', 'Ellipsis', 'None', 'decl', 'ref', 'classvar',
-	'Function', 'Method', 'ClassMethod', 'Constructor', 'Closure', *OP_NAMES, 'is_not', 'not_in'}
+	'Function', 'Method', 'ClassMethod', 'Constructor', 'Closure', 'Enum', 'this', 'clsref', 'Super', 'FuncCall', 'ListType', 'DictType', 'CallableType', 'CustomType', *OP_NAMES, 'is_not', 'not_in'}
 
 
 def construct_key(src: str, a: str, b: str) -> str:
@@ -1932,6 +2073,7 @@ def search_canon(ctx: Ctx) -> SearchResult:
 	corpus = [c for c in load_corpus() if c.get('stream') == 'search']
 	corpus_keys = {f"corpus:{c['file']}": c.get('key') for c in corpus}
 	sources: list[tuple[str, str]] = [(c['source'], f"corpus:{c['file']}") for c in corpus]
+	sources += [(src, f'fixed:{nm}') for nm, src in near_miss_programs()]
 	n = ctx.scale(500, 9000)
 	for i in range(n):
 		g = Gen(rng, 1 + i % 5, rich=True)
@@ -2003,6 +2145,9 @@ STATEMENTS = {
 	'compare_chain': 'a bare chain first o1 e1 … on en of comparison operators (incl. the two-word `not in`, `is not`) reads as one Compare(first, [o1 … on], [e1 … en])',
 	'call_arguments': 'tranp\'s reading of the `arguments` subtree returns kinds (plain / named / * / **), labels, values and order; CPython\'s args and keywords are its two ordered sublists',
 	'classify_owners_modelled': 'every match_feature reachable from the generated resolver table is modelled',
+	'match_feature_consts': 'the string constants of every match_feature (and of Function._in_class_block), generated from node.py / definition/*.py on every run with the logic around them pinned by skeleton digests, are exactly the tags and words the model\'s predicates compare with',
+	'match_feature_owners': 'the classes that define a match_feature in the code are exactly the owners the model implements',
+	'match_feature_words': 'for every input the model\'s name-dependent predicates are equality / list-membership tests against the generated words: classmethod among the decorator names, __init__ as def name, self / cls as first parameter or var text, super as callee, list / dict as type name',
 	'classify_rows': 'candidate orders of function_def / name / var / class_def / getattr in the generated table are the ones the decision functions hard-code',
 	'classify_function_def / classify_name / classify_var': 'first-match over the generated row computes funcClass / nameClass / varClass of the extracted features',
 	'classify_classMethod … classify_func_total': 'iff-characterisation of each function kind of the repaired code (e2c3e47), totality',
@@ -2047,6 +2192,8 @@ def run(ctx: Ctx) -> int:
 			'lark returns a derivation of grammar.lark (LALR construction and PythonIndenter are not modelled)',
 			'DeclableMatcher.is_decl_class_var: `endswith` on the joined parent path is modelled as equality of its last two tags (no tag of the grammar ends with another tag after a dot)',
 			'the LOGIC of each DeclableMatcher method is pinned by the digest of its ast skeleton (translate/gen_decl_matchers.py: a changed skeleton breaks the tie loudly); its string constants are generated data',
+			'the LOGIC of each match_feature method of node.py / definition/*.py (and of Function._in_class_block, Terminal.match_terminal) is pinned the same way (translate/gen_match_features.py); its string constants are generated and decided equal to the model\'s (match_feature_consts)',
+			'class kinds, generic-type kinds, super calls and self / cls references are compared by the bare spellings Enum / list / dict / super / self / cls (the oracle\'s own word list): tranp classifies by name, so a dotted or renamed spelling (enum.Enum, an alias) is an ordinary class / call / name on both sides',
 			'the parent/child tag relation (translate/gen_grammar_parents.py) is computed from lark\'s compiled rules with lark\'s tree-building conventions (_rule inlined, ?rule replaced by a single child unless aliased); it over-approximates only by keeping the tag of a ?rule. NamePos.suffix is checked against it (namepos_in_grammar, positions_complete); the real paths are exercised by the classify stream and by the declaration/reference roles of the ast search',
 			'the generated language leaves out only what one of the two parsers rejects or what CPython\'s ast cannot distinguish (list above class Gen); every construct both accept and read differently is generated and raised under its own key (MARK_WHAT)',
 		],
